@@ -1,6 +1,6 @@
 (** C07 - A window is active exactly when its log energy reaches the threshold. *)
 From Coq Require Import ZArith List Bool Reals.
-From AV Require Import Base.PyList Tok.Model Audio.Pcm Audio.Energy Audio.EnergyProofs IO.WavProofs.
+From AV Require Import Base.PyList Tok.Model Audio.Pcm Audio.Energy Audio.EnergyProofs IO.WavProofs Audio.Selector.
 Import ListNotations.
 Open Scope Z_scope.
 
@@ -43,6 +43,23 @@ Theorem C07_decode : forall w x, (0 < w)%nat ->
   - (256 ^ Z.of_nat w / 2) <= x < 256 ^ Z.of_nat w / 2 -> le_signed (le_encode w x) = x.
 Proof. exact WavProofs.le_signed_encode. Qed.
 
+(** the decision is the dispatch of make_channel_selector (tied to util.py by translation on every run, TieSelector.v)
+    followed by the selection it names; accepted channel indices are exactly [-channels, channels) *)
+Theorem C07_decision_via_selector : forall (w ch : nat) (s : sel) (p q : Z) (data : list Z),
+  is_valid w ch s p q data =
+  match resolve_selector (Z.of_nat ch) s with
+  | Err e => Err e
+  | Ok RAll => Ok (existsb (fun x => active_chan x p q) (to_array w ch data))
+  | Ok RMix => Ok (active_mix (to_array w ch data) p q)
+  | Ok (RIdx i) => Ok (active_chan (nth (Z.to_nat i) (to_array w ch data) []) p q)
+  end.
+Proof. exact is_valid_via_resolve. Qed.
+
+Theorem C07_index_range : forall channels i : Z, 1 < channels ->
+  (exists j, resolve_selector channels (SIdx i) = Ok (RIdx j) /\ 0 <= j < channels /\ (j = i \/ j = i + channels))
+  <-> - channels <= i < channels.
+Proof. exact resolve_index_range. Qed.
+
 Print Assumptions C07_spec.
 Print Assumptions C07_silence.
 Print Assumptions C07_floor_irrelevant.
@@ -52,3 +69,5 @@ Print Assumptions C07_selector_errors.
 Print Assumptions C07_mono_ignores_selector.
 Print Assumptions C07_neg_index.
 Print Assumptions C07_decode.
+Print Assumptions C07_decision_via_selector.
+Print Assumptions C07_index_range.
